@@ -78,7 +78,7 @@ type c07Witness struct {
 func init() {
 	core.Register(&core.Check{
 		ID:   "C07",
-		Rule: "exhaustive over: operation security in 11 shapes (absent, [], [{}], single, conjunction, alternatives, undeclared scheme, mixes) x document security in 6 shapes x 4 callback outcome assignments (A,B ok/fail) x parameter layout (none / operation overrides path-level query q with another type / operation declares q in another location) x renderings good/bad/absent of path-level q (query), path-level X-H (header, required), operation r (query, required) x body good/bad/absent x body required or not x 9 option sets (default, MultiError, ExcludeRequestBody, ExcludeRequestQueryParams, both excludes+MultiError, body-reading callback, no AuthenticationFunc, body streamed from a reader of unknown length with ContentLength 0 and -1). The model is boolean: each part has an independently controlled rendering. Then PRNG-drawn operations (1,500 quick / 150,000 thorough, 8 requests each): up to 3 requirements over 4 declared schemes (apiKey header/query, http bearer, oauth2 with scopes) and an undeclared one at document and operation level, integer parameters p,q in query/header/cookie and the path variable at path level, pattern-typed ones at operation level (overrides by (in,name), decoys in other locations), renderings 5 / x / XX / absent per parameter, body good/bad/absent, independent callback outcome per scheme, random combinations of MultiError, ExcludeRequestBody, ExcludeRequestQueryParams, body-reading callback, no AuthenticationFunc; same boolean model. Distinct = full case tuple; non-trivial = the model value depends on at least two parts (at least two of security/params/body are constrained).",
+		Rule: "exhaustive over: operation security in 11 shapes (absent, [], [{}], single, conjunction, alternatives, undeclared scheme, mixes) x document security in 6 shapes x 4 callback outcome assignments (A,B ok/fail) x parameter layout (none / operation overrides path-level query q with another type / operation declares q in another location) x renderings good/bad/absent of path-level q (query), path-level X-H (header, required), operation r (query, required) x body good/bad/absent x body required or not x 9 option sets (default, MultiError, ExcludeRequestBody, ExcludeRequestQueryParams, both excludes+MultiError, body-reading callback, no AuthenticationFunc, body streamed from a reader of unknown length with ContentLength 0 and -1). One Options value per option set serves all requests of a group, is first used on a body-less operation of the same path and must come back unchanged from every call. The model is boolean: each part has an independently controlled rendering. Then PRNG-drawn operations (1,500 quick / 150,000 thorough, 8 requests each): up to 3 requirements over 4 declared schemes (apiKey header/query, http bearer, oauth2 with scopes) and an undeclared one at document and operation level, integer parameters p,q in query/header/cookie and the path variable at path level, pattern-typed ones at operation level (overrides by (in,name), decoys in other locations), renderings 5 / x / XX / absent per parameter, body good/bad/absent, independent callback outcome per scheme, random combinations of MultiError, ExcludeRequestBody, ExcludeRequestQueryParams, body-reading callback, no AuthenticationFunc; same boolean model. Distinct = full case tuple; non-trivial = the model value depends on at least two parts (at least two of security/params/body are constrained).",
 		Assumptions: []string{
 			"reference: requirements = operation's if declared else document's; empty list or empty requirement passes; a requirement passes iff all its schemes are declared and accepted; effective parameters = operation's + path-level ones not overridden by (in,name)",
 			"in MultiError mode each failing part yields one member identifiable as security / parameter(in,name) / body",
@@ -118,7 +118,7 @@ func c07Doc(docSec, opSec c07sec, lay c07layout, bodyRequired bool) gen.S {
 	if opSec.reqs != nil {
 		op["security"] = secJSON(opSec.reqs)
 	}
-	item := gen.S{"post": op, "parameters": gen.Arr(
+	item := gen.S{"post": op, "get": gen.S{"responses": okResponses()}, "parameters": gen.Arr(
 		gen.S{"name": "q", "in": "query", "schema": gen.S{"type": "integer"}},
 		gen.S{"name": "X-H", "in": "header", "required": true, "schema": gen.S{"type": "integer"}},
 	)}
@@ -193,6 +193,8 @@ type c07opt struct {
 	o        openapi3filter.Options
 	readBody bool
 	noFunc   bool
+	shared   *openapi3filter.Options // the caller's value, reused for every request of a group
+	fp       uint64
 	opaque   int // 0: body from a bytes.Reader (length known); 1: opaque reader, ContentLength 0 as http.NewRequest leaves it; 2: opaque reader, ContentLength -1
 }
 
@@ -240,6 +242,42 @@ func c07Group(c *core.Ctx, ds, os c07sec, lay c07layout, bodyReq bool) {
 		{name: "streamed-body", opaque: 1},
 		{name: "MultiError+streamed-body(-1)", o: openapi3filter.Options{MultiError: true}, opaque: 2},
 	}
+	// Options belong to the caller: one value per option set serves every request of the group (as a server keeps one),
+	// must come back unchanged from every call, and is first used on the body-less GET operation of the same path
+	cur := &c07cur{}
+	for i := range opts {
+		so := opts[i].o
+		if !opts[i].noFunc {
+			so.AuthenticationFunc = func(ctx context.Context, ai *openapi3filter.AuthenticationInput) error {
+				*cur.trace = append(*cur.trace, ai.SecuritySchemeName+"("+strings.Join(ai.Scopes, ",")+")")
+				if cur.readBody && ai.RequestValidationInput.Request.Body != nil {
+					io.ReadAll(ai.RequestValidationInput.Request.Body)
+				}
+				if cur.ok[ai.SecuritySchemeName] {
+					return nil
+				}
+				return errors.New("denied")
+			}
+		}
+		opts[i].shared = &so
+		opts[i].fp = Fingerprint(so)
+		var tr []string
+		cur.trace, cur.ok, cur.readBody = &tr, map[string]bool{"A": true, "B": true}, false
+		hdr := http.Header{}
+		hdr.Set("X-H", "3")
+		if in, err := reqInput(router, newReq("GET", "http://h.t/c?q=5", hdr, nil), opts[i].shared); err == nil {
+			c.Eval()
+			if pi := core.Guard(func() { openapi3filter.ValidateRequest(bgCtx, in) }); pi != nil {
+				c.Violate(core.PanicFeatures(pi), c07Witness{Request: "GET /c (operation without a request body), options=" + opts[i].name}, pi.Stack)
+			}
+			c.Cover("options", "first used on a body-less operation")
+		}
+		if Fingerprint(*opts[i].shared) != opts[i].fp {
+			c.Violate(map[string]string{"kind": "caller_options_modified", "options": opts[i].name, "by": "body-less operation"}, c07Witness{Request: "GET /c", Options: opts[i].name},
+				"ValidateRequest on GET /c (no request body) changed the Options value the caller passed: "+fmt.Sprintf("%+v", *opts[i].shared))
+			opts[i].fp = Fingerprint(*opts[i].shared)
+		}
+	}
 	renders := []string{"good", "bad", "absent"}
 	for authMask := 0; authMask < 4; authMask++ {
 		ok := map[string]bool{"A": authMask&1 != 0, "B": authMask&2 != 0}
@@ -251,7 +289,7 @@ func c07Group(c *core.Ctx, ds, os c07sec, lay c07layout, bodyReq bool) {
 							if op.noFunc && authMask != 0 {
 								continue
 							}
-							c07Case(c, router, ds, os, lay, bodyReq, eff, ok, q, h, r, body, op)
+							c07Case(c, router, ds, os, lay, bodyReq, eff, ok, q, h, r, body, op, cur)
 						}
 					}
 				}
@@ -260,7 +298,13 @@ func c07Group(c *core.Ctx, ds, os c07sec, lay c07layout, bodyReq bool) {
 	}
 }
 
-func c07Case(c *core.Ctx, router routers.Router, ds, os c07sec, lay c07layout, bodyReq bool, eff []map[string][]string, ok map[string]bool, q, h, r, body string, op c07opt) {
+type c07cur struct {
+	trace    *[]string
+	ok       map[string]bool
+	readBody bool
+}
+
+func c07Case(c *core.Ctx, router routers.Router, ds, os c07sec, lay c07layout, bodyReq bool, eff []map[string][]string, ok map[string]bool, q, h, r, body string, op c07opt, cur *c07cur) {
 	// ---- build the request ----
 	var pairs []string
 	switch q {
@@ -330,20 +374,9 @@ func c07Case(c *core.Ctx, router routers.Router, ds, os c07sec, lay c07layout, b
 
 	// ---- run ----
 	var trace []string
-	o := op.o
-	if !op.noFunc {
-		o.AuthenticationFunc = func(ctx context.Context, ai *openapi3filter.AuthenticationInput) error {
-			trace = append(trace, ai.SecuritySchemeName+"("+strings.Join(ai.Scopes, ",")+")")
-			if op.readBody && ai.RequestValidationInput.Request.Body != nil {
-				io.ReadAll(ai.RequestValidationInput.Request.Body)
-			}
-			if ok[ai.SecuritySchemeName] {
-				return nil
-			}
-			return errors.New("denied")
-		}
-	}
-	in, err := reqInput(router, req, &o)
+	cur.trace, cur.ok, cur.readBody = &trace, ok, op.readBody
+	o := *op.shared
+	in, err := reqInput(router, req, op.shared)
 	if err != nil {
 		c.Violate(map[string]string{"kind": "not_routed"}, c07Witness{Request: desc, Err: err.Error()}, desc)
 		return
@@ -353,6 +386,10 @@ func c07Case(c *core.Ctx, router routers.Router, ds, os c07sec, lay c07layout, b
 	if pi := core.Guard(func() { verr = openapi3filter.ValidateRequest(bgCtx, in) }); pi != nil {
 		c.Violate(core.PanicFeatures(pi), c07Witness{Request: desc}, pi.Stack)
 		return
+	}
+	if Fingerprint(*op.shared) != op.fp {
+		c.Violate(map[string]string{"kind": "caller_options_modified", "options": op.name, "by": "request"}, c07Witness{Request: desc, Options: op.name}, desc+"\nValidateRequest changed the Options value the caller passed: "+fmt.Sprintf("%+v", *op.shared))
+		*op.shared = o
 	}
 	constrained := 0
 	if len(eff) > 0 {
